@@ -174,7 +174,10 @@ class PipelineData(np.ndarray):
                 raise ValueError('Too many channels')
         elif channel_slice is not skip:
             if isinstance(channel_slice, list):
-                obj.channel = [obj.channel[s] for s in channel_slice]
+                # The list may be a boolean mask; let numpy resolve it as it
+                # did for the data.
+                index = np.arange(len(obj.channel))[channel_slice]
+                obj.channel = [obj.channel[s] for s in index]
             elif isinstance(channel_slice, (int, slice)):
                 obj.channel = obj.channel[channel_slice]
             else:
